@@ -113,9 +113,10 @@ InteractionApplierBaseImpl<F>::operator()(celeritas::CoreTrackView const& track)
         auto phys = track.make_physics_view();
         // Particle already moved to the collision site, but an out-of-memory
         // (allocation failure) occurred. Someday we can add error handling,
-        // but for now use the "failure" action in the physics and set the step
-        // limit to zero since it needs to interact again at this location.
-        sim.step_limit({0, phys.scalars().failure_action()});
+        // but for now use the "failure" action in the physics: the track is
+        // left unchanged and will interact again. The step length is *not*
+        // reset, since the track did travel that distance during this step.
+        sim.post_step_action(phys.scalars().failure_action());
         return;
     }
     else if (!result.changed())
